@@ -1,6 +1,7 @@
 use crate::PropDef;
 
 pub mod c01;
+pub mod c02;
 pub mod c03;
 pub mod c04;
 pub mod c05;
@@ -17,7 +18,7 @@ pub mod c17;
 pub mod c18;
 
 pub fn all() -> Vec<&'static PropDef> {
-    vec![&c01::DEF, &c03::DEF, &c04::DEF, &c05::DEF, &c06::DEF, &c07::DEF, &c08::DEF, &c09::DEF, &c10::DEF, &c11::DEF, &c12::DEF, &c14::DEF, &c17::DEF, &c18::DEF]
+    vec![&c01::DEF, &c02::DEF, &c03::DEF, &c04::DEF, &c05::DEF, &c06::DEF, &c07::DEF, &c08::DEF, &c09::DEF, &c10::DEF, &c11::DEF, &c12::DEF, &c14::DEF, &c17::DEF, &c18::DEF]
 }
 
 pub fn find(id: &str) -> Option<&'static PropDef> {
